@@ -62,7 +62,7 @@ def run(chk):
             chk.violation("c08:pattern-rejected:" + nm, "layout pattern %s was rejected by the compiler: %s" % (nm, r["errors"]), {"source": s})
     d = rundir(chk.pid, "tab_in")
     pp = vm.write_progs(d, [pr for _, _, pr in acc])
-    cfg = "SPECIFICATION SSpec\nINVARIANT TablesInv LocsRealInv\nVIEW AView\nCHECK_DEADLOCK FALSE\n"
+    cfg = "SPECIFICATION SSpec\nINVARIANT TablesInv LocsRealInv AvailInv\nVIEW AView\nCHECK_DEADLOCK FALSE\n"
     r = tlc("TheoVMAbs", cfg, chk.pid, "tables", env={"PROGS": pp, "HISTK": "0"}, timeout=1500, xmx="12g")
     if not require_ok(r, "tables"):
         m = re.search(r"/\\ p = (\d+)", r.out)
